@@ -9,10 +9,11 @@
      (skipped when [_unpack_fragment] says the fragment has no class of its own), then one per
      operation in document order; the operation string is taken right after the operation's own
      generator ran, so later operations see the insertions made by earlier ones in shared fragments;
-   - [_get_node_without_mixin_directive]: RemoveMixinVisitor has [enter_field] only;
-   - [_get_all_related_fragments] = mixins ∪ spreads reachable from the mixins' definitions ∪ unpacked,
-     printed in sorted order after the operation.
-   Executable definitions only; defects reproduced. *)
+   - [_get_node_without_mixin_directive]: RemoveMixinVisitor has [enter_field] and, since b510d04,
+     [enter_fragment_definition];
+   - [_get_all_related_fragments] = (since ab67ead) the closure of the operation's own selection set
+     under "spreads", printed in sorted order after the operation.
+   Executable definitions only. *)
 From Coq Require Import List String Ascii Bool Arith.
 From AC Require Import Base.Strs Base.Sexp Gql.Schema Gql.Doc Py.Ann Model.Names Model.Results.
 Import ListNotations.
@@ -62,7 +63,8 @@ Definition strip_op (o : opdef) : opdef :=
   {| o_kind := o_kind o; o_name := o_name o; o_vars := o_vars o; o_dirs := o_dirs o;
      o_sel := map strip_sel (o_sel o) |}.
 Definition strip_fd (f : fdef) : fdef :=
-  {| fd_name := fd_name f; fd_on := fd_on f; fd_dirs := fd_dirs f; fd_sel := map strip_sel (fd_sel f) |}.
+  {| fd_name := fd_name f; fd_on := fd_on f; fd_dirs := filter not_mixin (fd_dirs f);
+     fd_sel := map strip_sel (fd_sel f) |}.
 
 (* ---- _resolve_selection_set, instrumented: (fields, mixins, unpacked) ---- *)
 Record fnode' := { n_id : nat; n_alias : option string; n_name : string; n_sub : option (list fsel) }.
@@ -198,11 +200,10 @@ Fixpoint frag_names (fuel : nat) (frs : list fdef) (names : list string) : optio
          end) names
   end.
 
-Definition related (fuel : nat) (frs : list fdef) (mix unp : list string) : option (list string) :=
-  (* the names spread by the mixins' definitions, transitively: frag_names of the mixins contains
-     the mixins themselves and everything below them *)
-  match frag_names fuel frs mix with
-  | Some l => Some (sorted_set (l ++ unp))
+(* _get_all_related_fragments: everything the operation spreads, transitively *)
+Definition related (fuel : nat) (frs : list fdef) (o : opdef) : option (list string) :=
+  match frag_names fuel frs (sel_spreads (o_sel o)) with
+  | Some l => Some (sorted_set l)
   | None => None
   end.
 
@@ -220,7 +221,7 @@ Definition op_document (fuel : nat) (C : cfg) (Sc : schema) (frs : list fdef) (i
   else
   tn <- root_type_name Sc (o_kind o) ;;
   st <- ptd fuel C Sc frs (map proj_frag frs) (fresh ins) (pascal_s (o_name o)) tn None (o_sel o) false ;;
-  match related fuel frs (ps_mix st) (ps_unp st) with
+  match related fuel frs o with
   | None => Err "KeyError: fragment"
   | Some rel =>
       match lookup_all frs rel with
@@ -314,42 +315,27 @@ Definition strip_all_ddef (d : ddef) : ddef :=
                         fd_sel := map strip_all_sel (fd_sel f) |}
   end.
 
-(* boolean: @mixin occurs only on fields (where the visitor removes it) *)
-Fixpoint mixin_only_on_fields_sel (s : fsel) : bool :=
+(* validity of the input: @mixin stands only where the tool declares it (FIELD, FRAGMENT_DEFINITION);
+   get_graphql_queries rejects every other placement (KnownDirectives rule) *)
+Fixpoint mixin_located_sel (s : fsel) : bool :=
   match s with
-  | FField _ _ _ _ _ (Some l) => forallb mixin_only_on_fields_sel l
+  | FField _ _ _ _ _ (Some l) => forallb mixin_located_sel l
   | FField _ _ _ _ _ None => true
-  | FInline _ ds l => forallb not_mixin ds && forallb mixin_only_on_fields_sel l
+  | FInline _ ds l => forallb not_mixin ds && forallb mixin_located_sel l
   | FSpread _ ds => forallb not_mixin ds
   | FAuto => true
   end.
-Definition mixin_only_on_fields (d : ddef) : bool :=
+Definition mixin_located (d : ddef) : bool :=
   match d with
   | XOp o => forallb not_mixin (o_dirs o) && forallb (fun v => forallb not_mixin (v_dirs v)) (o_vars o)
-             && forallb mixin_only_on_fields_sel (o_sel o)
-  | XFrag f => forallb not_mixin (fd_dirs f) && forallb mixin_only_on_fields_sel (fd_sel f)
+             && forallb mixin_located_sel (o_sel o)
+  | XFrag f => forallb mixin_located_sel (fd_sel f)
   end.
 
-(* coverage guard of fragments_exact: every fragment spread (at any depth) from the operation's own
-   selection set or from the definition of an unpacked fragment is among the related fragments [rel]
-   (as a mixin, below a mixin, or unpacked).  False exactly when a spread dropped by
-   _resolve_selection_set (or under a skipped class) is not picked up anywhere else. *)
-Definition covered (frs : list fdef) (o : opdef) (rel unp : list string) : bool :=
-  forallb (fun n => mem n rel) (sel_spreads (o_sel o))
-  && forallb (fun u => match lookup_fdef frs u with
-                       | Some f => forallb (fun n => mem n rel) (sel_spreads (fd_sel f))
-                       | None => false end) unp.
-
-(* what was recorded is reachable from the operation (second half of the guard of fragments_exact) *)
+(* what the generator recorded is reachable from the operation (auxiliary; feeds imports, C08) *)
 Definition recorded_reachable (fuel : nat) (frs : list fdef) (o : opdef) (mix unp : list string) : bool :=
   match frag_names fuel frs (sel_spreads (o_sel o)) with
   | Some r => forallb (fun n => mem n r) (mix ++ unp)
-  | None => false
-  end.
-
-Definition exact_guard (fuel : nat) (frs : list fdef) (o : opdef) (mix unp : list string) : bool :=
-  match related fuel frs mix unp with
-  | Some rel => covered frs o rel unp && recorded_reachable fuel frs o mix unp
   | None => false
   end.
 
@@ -368,7 +354,7 @@ Definition run_opstr (e : sexp) : sexp :=
       | _, _, _, _, _ => sErr "opstr: cannot decode arguments"
       end
   | L [A "sets"; fuel; snake; s; fs; os] =>
-      (* per operation: mixins, unpacked, related, covered *)
+      (* per operation: mixins, unpacked, related, recorded_reachable *)
       match dNat fuel, dB snake, d_schema s, dList d_fdef fs, dList d_opdef os with
       | Some fuel, Some snake, Some s, Some fs, Some os =>
           let C := {| cf_snake := snake; cf_scalars := [] |} in
@@ -381,9 +367,7 @@ Definition run_opstr (e : sexp) : sexp :=
                          st <- ptd fuel C s fs (map proj_frag fs) (fresh ins) (pascal_s (o_name o)) tn None
                                    (o_sel o) false ;;
                          Ok (out ++ [L [L (map A (sorted_set (ps_mix st))); L (map A (sorted_set (ps_unp st)));
-                                        sOpt (fun l => L (map A l)) (related fuel fs (ps_mix st) (ps_unp st));
-                                        sB (match related fuel fs (ps_mix st) (ps_unp st) with
-                                            | Some rel => covered fs o rel (ps_unp st) | None => false end);
+                                        sOpt (fun l => L (map A l)) (related fuel fs o);
                                         sB (recorded_reachable fuel fs o (ps_mix st) (ps_unp st))]],
                              ps_ins st)) os (Ok ([], ins0)) in
               match r with
